@@ -105,6 +105,17 @@ example : ∃ s s', run init [.resume, .arrive, .runNotify, .resume, .arrive] = 
   refine ⟨_, _, rfl, rfl, ?_, rfl⟩
   intro a ha; cases a <;> first | exact absurd rfl ha | rfl
 
+/-- A *re-entrant* arrival — the consumer itself emits into the upstream of `latest` during the
+call that hands it an element (a feedback cycle) — is the action `arrive` taken in state
+`emitting`: `resume` has already emptied the slot and started the delivery (`[x], self.next =
+self.next, []` precedes `self._emit`), so the element written by the nested `update` stays in
+the slot and is delivered next.  Here: 1 is delivered, the consumer feeds back 2 and then 3
+before completing; 3 supersedes 2 and is delivered. -/
+example : ∃ s, run init [.resume, .arrive, .runNotify, .resume, .arrive, .arrive, .consumerDone,
+      .resume, .runNotify, .runNotify, .consumerDone, .resume] = some s ∧
+    s.delivered = [1, 3] ∧ Quiescent s ∧ ConsumerFree s := by
+  refine ⟨_, rfl, ?_⟩; decide
+
 /-! ## The original mechanism (unchanged tree): both clauses fail -/
 
 /-- Witness of the lost wake-up: arrival 2 comes while the consumer is busy with
